@@ -116,6 +116,7 @@ type c10Resp struct {
 	Expires *int64 `json:"expires,omitempty"` // Expires header = now + Expires seconds
 	ExpRaw  string `json:"exp_raw,omitempty"` // literal Expires header (overrides Expires)
 	LastMod *int64 `json:"last_mod,omitempty"`
+	Vary    string `json:"vary,omitempty"`
 }
 
 type c10Op struct {
@@ -966,6 +967,10 @@ func (r *c10Resp) header(now time.Time) http.Header {
 		h.Set("Expires", now.Add(time.Duration(*r.Expires)*time.Second).UTC().Format(http.TimeFormat))
 	}
 
+	if r.Vary != "" {
+		h.Set("Vary", r.Vary)
+	}
+
 	if r.LastMod != nil {
 		h.Set("Last-Modified", now.Add(time.Duration(*r.LastMod)*time.Second).UTC().Format(http.TimeFormat))
 	}
@@ -1005,6 +1010,9 @@ func oracle(req *http.Request, status int, h http.Header) (bool, *int64) {
 }
 
 type httpObs struct {
+	MethodOK bool   `json:"method_ok"`
+	Vary     bool   `json:"vary"`
+	Lookup   bool   `json:"lookup"`
 	Cachable bool   `json:"cachable"`
 	Life     *int64 `json:"life,omitempty"`
 	Dmax     int64  `json:"dmax"`
@@ -1042,7 +1050,7 @@ func (e *env) runHTTP(c *c10Case) (httpObs, string) {
 
 		io.Copy(io.Discard, resp.Body)
 
-		_, _, _, set := rec.summary()
+		lookup, _, _, set := rec.summary()
 
 		rec.begin(1)
 
@@ -1058,7 +1066,10 @@ func (e *env) runHTTP(c *c10Case) (httpObs, string) {
 
 		be.close()
 
-		o = httpObs{Cachable: cachable, Life: life, Dmax: dmax, Set: set, Hit: hit}
+		o = httpObs{
+			MethodOK: c.Resp.Method == http.MethodGet || c.Resp.Method == http.MethodHead, Vary: c.Resp.Vary != "",
+			Lookup: lookup, Cachable: cachable, Life: life, Dmax: dmax, Set: set, Hit: hit,
+		}
 
 		// lifetime too close to the measured uncertainty (positive but tiny): repeat
 		l := life
@@ -1073,8 +1084,8 @@ func (e *env) runHTTP(c *c10Case) (httpObs, string) {
 		break
 	}
 
-	coq := vf.CoqApp("CHttp", coqBackend(c.Backend), vf.CoqBool(o.Cachable), optZ(o.Life), vf.CoqZ(c.Dflt), vf.CoqZ(o.Dmax),
-		optZ(o.Set), vf.CoqBool(o.Hit))
+	coq := vf.CoqApp("CHttp", coqBackend(c.Backend), vf.CoqBool(o.MethodOK), vf.CoqBool(o.Vary), vf.CoqBool(o.Cachable),
+		optZ(o.Life), vf.CoqZ(c.Dflt), vf.CoqZ(o.Dmax), vf.CoqBool(o.Lookup), optZ(o.Set), vf.CoqBool(o.Hit))
 
 	return o, coq
 }
@@ -1529,10 +1540,15 @@ func genResp(r *vf.Rand, cachableBias bool) *c10Resp {
 		p.CC = vf.Pick(r, ccPool)
 	} else {
 		p.CC = vf.Pick(r, []string{"", "", "max-age=0", "max-age=1", "max-age=2", "max-age=3600", "public, max-age=1"})
+		p.Method = vf.Pick(r, []string{"GET", "GET", "GET", "GET", "HEAD", "POST", "DELETE"})
 	}
 
 	if r.Chance(60) {
 		p.Date = p64(vf.Pick(r, []int64{0, 0, -30, 30, -3600}))
+	}
+
+	if !cachableBias && r.Chance(15) || cachableBias && r.Chance(8) {
+		p.Vary = vf.Pick(r, []string{"Accept", "Accept-Encoding, Cookie", "*"})
 	}
 
 	if r.Chance(45) {
@@ -1641,9 +1657,8 @@ func (e *env) genHist(r *vf.Rand, backend string) c10Case {
 		return c
 	}
 
-	// (the introspection authenticator is not used here: its cache key hashes the endpoint's header map in
-	// iteration order -- C11-F1 -- so identical requests miss at random, which no deterministic model predicts)
-	c.Mech = vf.Pick(r, []string{"remote", "ctx", "generic"})
+	// (the introspection authenticator is included since 9b4883e made its cache key independent of map order)
+	c.Mech = vf.Pick(r, []string{"remote", "ctx", "generic", "intro"})
 
 	// ttl in force: 0 (disabled) | short | long, through the prototype or a rule-level override
 	short := p64(60 * msec)
@@ -1706,6 +1721,11 @@ func corpus() []c10Case {
 		{Kind: "http", Backend: "mem", Resp: maxAge0},
 		{Kind: "http", Backend: "mem", Resp: pastExp},
 		{Kind: "http", Backend: "redis", Resp: maxAge0},
+		// since 12fdf68: no lookup and no store for other methods, no store for responses with Vary
+		{Kind: "http", Backend: "mem", Resp: &c10Resp{Method: "POST", Status: 200, CC: "max-age=3600", Date: p64(0)}},
+		{Kind: "http", Backend: "mem", Resp: &c10Resp{Method: "HEAD", Status: 200, CC: "max-age=3600", Date: p64(0)}},
+		{Kind: "http", Backend: "mem", Resp: &c10Resp{Method: "GET", Status: 200, CC: "max-age=3600", Date: p64(0), Vary: "Accept"}},
+		{Kind: "hist", Mech: "intro", Backend: "mem", Conf: p64(60 * msec), Evs: []c10Ev{{Key: 1}, {Key: 1}, {Key: 2}, {Key: 1, Adv: 180 * msec}}},
 		{Kind: "http", Backend: "mem", Resp: &c10Resp{Method: "GET", Status: 200}, Dflt: -sec},
 		{Kind: "hist", Mech: "http", Backend: "mem", Evs: []c10Ev{{Key: 1, Resp: maxAge0}, {Key: 1, Resp: maxAge0, Adv: 30 * msec}, {Key: 1, Resp: maxAge0, Adv: 30 * msec}}},
 		{Kind: "hist", Mech: "ctxhttp", Backend: "mem", Evs: []c10Ev{{Key: 1, Resp: maxAge0}, {Key: 1, Resp: maxAge0, Adv: 30 * msec}, {Key: 2, Resp: maxAge0}}},
@@ -1863,7 +1883,8 @@ func tags(c *c10Case, out any) []string {
 			}
 		}
 
-		t = append(t, fmt.Sprintf("site:cacheResponse/cachable=%t/life=%s/set=%t/hit=%t", o.Cachable, life, o.Set != nil, o.Hit))
+		t = append(t, fmt.Sprintf("site:cacheResponse/cachable=%t/life=%s/set=%t/hit=%t", o.Cachable, life, o.Set != nil, o.Hit),
+			fmt.Sprintf("site:cachedResponse/method_ok=%t/vary=%t/lookup=%t", o.MethodOK, o.Vary, o.Lookup))
 	case []opObs:
 		t = append(t, "site:"+c.Backend+".Get/Set")
 	case []evObs:
